@@ -673,6 +673,9 @@ type c19RspExpect struct {
 	// further field lists the statement leaves to the writer (part writer-response-ops: the states
 	// the handler's header map went through after the final WriteHeader and before the handler ended)
 	alts [][]c19Field
+	// altTrailers[j]: the trailer section that goes with alts[j] (the trailers the header map declared
+	// in that state); nil slice: `trailer` goes with every alternative
+	altTrailers []http.Header
 }
 
 func c19SectionOf(status int, fs []c19Field, h http.Header) c19RspExpect {
@@ -928,9 +931,12 @@ func c19JudgeRspWire(pfx, at string, wire []byte, valid bool, sections []c19RspE
 		}
 		later := false
 		if g != w {
-			for _, alt := range sec.alts {
+			for j, alt := range sec.alts {
 				if v2, a2, w2 := render(alt); g == w2 {
 					view, ann, w, later = v2, a2, w2, true
+					if sec.altTrailers != nil {
+						sec.trailer = sec.altTrailers[j]
+					}
 					break
 				}
 			}
@@ -955,6 +961,15 @@ func c19JudgeRspWire(pfx, at string, wire []byte, valid bool, sections []c19RspE
 		if err == nil && sec.trailer != nil {
 			if g, w := c19RenderHeader(rsp.Trailer), c19RenderHeader(sec.trailer); g != w {
 				return "", explore.Failf(pfx+"-trailers/fields-differ"+at, "client sees trailers %s, the handler set %s; on the wire %v", g, w, emittedAll())
+			}
+		}
+		if err == nil && sec.trailer == nil {
+			// the message has no trailer fields: the client may know announced names (nil values), but no values
+			for k, vv := range rsp.Trailer {
+				if len(vv) > 0 {
+					return "", explore.Failf(pfx+"-trailers/fields-differ:unexpected:"+strings.ToLower(k)+at,
+						"client sees trailers %s, the message has none (nothing set by the handler is declared as a trailer by the section's header map); on the wire %v", c19RenderHeader(rsp.Trailer), emittedAll())
+				}
 			}
 		}
 		out := fmt.Sprintf("%s: round trip ok, %d", class, sec.status)
